@@ -98,6 +98,10 @@ class Sim:
         """running | exit:<n> | sanitizer:<key> | stalled | signal:<n>"""
         if p.state == "stalled":
             return "stalled"
+        if p.state == "recvblock" and self.k.now - p.block_since > 5 * US:
+            # blocked for (virtual) seconds in a receive call on a socket with nothing to deliver: the program's main loop is
+            # not running any more
+            return "stalled"
         if getattr(p, "inv_bad", None) is not None and getattr(self, "judge_table_invariants", False):
             # the users[] table failed one of its structural invariants at a select(): reported like a sanitizer finding
             return "sanitizer:table-invariant:bits_%04x" % p.inv_bad[2]
